@@ -125,10 +125,12 @@ def verify_function(prog, db, q, contract, case=None):
                 for cl in contract.of('ensures'):
                     for a in cl.args:
                         g = ex.truth(ex.evs(a, loc), loc)
+                        s.pc[:] = loc.pc
                         ex.oblige(s, 'post', g, a, text='ensures ' + ast.unparse(a)[:140])
                 for exc, cl in raises.items():
                     if 'when' in cl.kw:
                         g = NOT(ex.truth(ex.evs(cl.kw['when'], loc), loc))
+                        s.pc[:] = loc.pc
                         ex.oblige(s, 'post:no-%s' % exc, g, cl.kw['when'], text='normal return only when not (%s)' % ast.unparse(cl.kw['when'])[:120])
                 for cl in contract.of('fresh'):
                     check_fresh(ex, s, v, fi.node)
@@ -139,6 +141,7 @@ def verify_function(prog, db, q, contract, case=None):
                     if 'when' in cl.kw:
                         apply_hints(ex, contract, 'raise', loc, s)
                         g = ex.truth(ex.evs(cl.kw['when'], loc), loc)
+                        s.pc[:] = loc.pc
                         ex.oblige(s, 'raises:%s' % v, g, cl.kw['when'], text='%s raised only when %s' % (v, ast.unparse(cl.kw['when'])[:120]))
                 else:
                     ex.oblige(s, 'no-other-exception', False, fi.node, text='no %s outside the contract' % v)
@@ -159,7 +162,9 @@ def apply_hints(ex, contract, where, loc, s):
             continue
         for a in cl.args:
             f = ex.truth(ex.evs(a, loc), loc)
+            s.pc[:] = loc.pc
             s.assume(f)
+            loc.pc = list(s.pc)
 
 
 def check_fresh(ex, s, v, node):
